@@ -83,5 +83,5 @@ func VerifHome() string {
 	return "/verif"
 }
 
-func jsonMarshal(v interface{}) ([]byte, error) { return json.Marshal(v) }
+func jsonMarshal(v interface{}) ([]byte, error)   { return json.Marshal(v) }
 func jsonUnmarshal(b []byte, v interface{}) error { return json.Unmarshal(b, v) }
